@@ -72,6 +72,12 @@ func (a Amount) ToCoinWithBase(list *balance.CurrencySet) balance.Coin {
 		return balance.Coin{}
 	}
 
+	// the value counts whole currency units and is converted through int64: a value that does not fit
+	// would be truncated silently (2^64 becomes 0), so it is not a valid amount
+	if !a.Value.BigInt().IsInt64() {
+		return balance.Coin{}
+	}
+
 	// parse float string
 	return currency.NewCoinFromInt(a.Value.BigInt().Int64())
 }
